@@ -11,6 +11,8 @@ package upload
 
 import "golang.org/x/telemetry/internal/telemetry"
 
+var _ telemetry.ProgramReport // the contracts below name the type
+
 // Ghost state (see package telemetry for $mode, $asof, $fsops):
 //
 //	$reportExists  inside createReport: a local or uploadable report file for
@@ -47,10 +49,9 @@ func specUploader(u *uploader) bool {
 // newline (the name the configuration lists); shared with the server and the
 // viewer (C11). Tied to the code here by the contract of strings.Cut.
 
-// specPrograms: every program entry of a report under construction is usable.
-func specProgram(p *telemetry.ProgramReport) bool {
-	return p != nil && p.Counters != nil && p.Stacks != nil
-}
+// specProgram: a program entry of a report under construction is usable: it has
+// both maps, and they are two different maps (findProgReport makes them so).
+//@ predicate specProgram(p *telemetry.ProgramReport): p != nil && p.Counters != nil && p.Stacks != nil && p.Counters != p.Stacks
 
 // ---------------------------------------------------------------------------
 // C05 (uploader half): no panic escapes upload.Run: the deferred recover is
@@ -201,6 +202,14 @@ func specProgram(p *telemetry.ProgramReport) bool {
 //@   at call Mode#1: ghost $contributed = false
 //@   at call IsStackCounter#1: ghost $contributed = true
 //@   at call Errorf#1: assert !$contributed
+// C07, aggregation: while one count file is folded into its report entry
+// (loop 2), every key visited so far has had exactly the file's value added to
+// the entry's previous value - counters and stack counters each in their own
+// map - and no other key of the entry has changed.
+//@   loop 2: invariant forall k string :: visited(x.Count, k) && !strings.Contains(k, "\n") ==> prog.Counters[k] == loopentry(prog.Counters[k]) + int64(x.Count[k])
+//@   loop 2: invariant forall k string :: visited(x.Count, k) && strings.Contains(k, "\n") ==> prog.Stacks[k] == loopentry(prog.Stacks[k]) + int64(x.Count[k])
+//@   loop 2: invariant forall k string :: !(visited(x.Count, k) && !strings.Contains(k, "\n")) ==> prog.Counters[k] == loopentry(prog.Counters[k])
+//@   loop 2: invariant forall k string :: !(visited(x.Count, k) && strings.Contains(k, "\n")) ==> prog.Stacks[k] == loopentry(prog.Stacks[k])
 //@   loop 1: invariant succeeded <==> $contributed
 //@   loop 2: invariant (succeeded <==> $contributed) && (fok ==> $contributed)
 //@   at call Stat#1: after ghost $reportExists = $reportExists || result1 == nil
